@@ -16,7 +16,11 @@
 (* below k * 10^6, so every native intermediate stays below 2^31 for       *)
 (* operands of up to 2000 limbs (6000 digits).                             *)
 (***************************************************************************)
-EXTENDS Integers, Sequences
+EXTENDS Integers, Sequences, TLC
+
+\* TLC represents [i \in 1..n |-> e] as a closure and re-evaluates e at every application;
+\* Strict turns it into a concrete sequence once (TLCEval is the identity, evaluated eagerly).
+Strict(f) == TLCEval(f)
 
 B == 1000
 
@@ -41,14 +45,14 @@ IsN(a) == /\ \A i \in 1..Len(a) : a[i] \in 0..(B - 1)
           /\ (Len(a) > 0 => a[Len(a)] # 0)
 
 NOf(k) == Carry(<<k>>)                       \* k >= 0 native
-NAdd(a, b) == Carry([i \in 1..MaxI(Len(a), Len(b)) |-> Limb(a, i) + Limb(b, i)])
+NAdd(a, b) == Carry(Strict([i \in 1..MaxI(Len(a), Len(b)) |-> Limb(a, i) + Limb(b, i)]))
 
 RECURSIVE ColSum(_, _, _, _, _)
 ColSum(a, b, k, i, hi) == IF i > hi THEN 0 ELSE a[i] * b[k + 1 - i] + ColSum(a, b, k, i + 1, hi)
 NMul(a, b) ==
   IF Len(a) = 0 \/ Len(b) = 0 THEN <<>>
-  ELSE Carry([k \in 1..(Len(a) + Len(b) - 1) |->
-                ColSum(a, b, k, MaxI(1, k + 1 - Len(b)), MinI(Len(a), k))])
+  ELSE Carry(Strict([k \in 1..(Len(a) + Len(b) - 1) |->
+                       ColSum(a, b, k, MaxI(1, k + 1 - Len(b)), MinI(Len(a), k))]))
 
 RECURSIVE CmpFrom(_, _, _)
 CmpFrom(a, b, i) == IF i = 0 THEN 0
@@ -67,7 +71,7 @@ NSub(a, b) == Trim(SubR(a, b, 1, 0))
 NMonus(a, b) == IF NLe(a, b) THEN <<>> ELSE NSub(a, b)       \* max(a - b, 0)
 
 \* a * B^k
-NShift(a, k) == IF Len(a) = 0 THEN <<>> ELSE [i \in 1..(k + Len(a)) |-> IF i <= k THEN 0 ELSE a[i - k]]
+NShift(a, k) == IF Len(a) = 0 THEN <<>> ELSE Strict([i \in 1..(k + Len(a)) |-> IF i <= k THEN 0 ELSE a[i - k]])
 
 RECURSIVE NPow(_, _)
 NPow(a, e) == IF e = 0 THEN <<1>> ELSE NMul(a, NPow(a, e - 1))
